@@ -21,11 +21,14 @@ package ledger
 //
 // The T/PC/PU lines come from two no-op probe trackers that the child appends to the head and the
 // tail of Ledger.trackers after OpenLedger (the harness is in-package; /repo is not modified).
-// The parent SIGKILLs the child (os.Process.Kill: no deferred functions, no SQLite close) after
-// the n-th line (optionally some hundred microseconds later), or at a chosen time after start
-// (kills inside OpenLedger: schema creation, replay, catchpoint recovery).  When the n-th line is
-// a probe line the child sleeps a few milliseconds after printing it so that the kill lands at
-// that boundary.  Nothing simulates a crash in-process.
+// The parent SIGKILLs the child (os.Process.Kill: no deferred functions, no SQLite close)
+//   - right after the n-th event of a chosen kind (B A W T0 T1 PC0 PC1 PU1),
+//   - after the n-th line of any kind, optionally 0-3 ms later,
+//   - at a chosen time after start (kills inside OpenLedger: schema creation, replay, catchpoint
+//     recovery, the commit that replay issues).
+// When the awaited line is a probe line the child sleeps 40 ms after printing it, so that the kill
+// lands exactly at that boundary (inside the tracker transaction / after its commit and before any
+// postCommit / ...).  Nothing simulates a crash in-process.
 //
 // After every kill the parent looks at what is on disk with plain SQL (block range, tracker DB
 // round, catchpoint state rows, catchpoint files) and then reopens the files with OpenLedger,
@@ -427,7 +430,7 @@ type vc9Probe struct {
 }
 
 func (p *vc9Probe) loadFromDisk(ledgerForTracker, basics.Round) error         { return nil }
-func (p *vc9Probe) newBlock(bookkeeping.Block, ledgercore.StateDelta)          {}
+func (p *vc9Probe) newBlock(bookkeeping.Block, ledgercore.StateDelta)         {}
 func (p *vc9Probe) committedUpTo(r basics.Round) (basics.Round, basics.Round) { return r, 0 }
 func (p *vc9Probe) produceCommittingTask(_ basics.Round, _ basics.Round, dcr *deferredCommitRange) *deferredCommitRange {
 	return dcr
@@ -882,7 +885,7 @@ func TestVerifC09(t *testing.T) {
 	vStats(map[string]interface{}{
 		"tier": tier, "counts": st, "kill_after_line_kind": killKinds, "durable_boundaries_hit": boundaries,
 		"boundary_kinds_reached": reached, "boundary_kinds_total": len(hookless),
-		"hook": "none: /repo unmodified; crash points are reached by SIGKILL of a child process at progress lines (two in-package probe trackers widen the commit windows) and at jittered times",
+		"hook":   "none: /repo unmodified; crash points are reached by SIGKILL of a child process at progress lines (two in-package probe trackers widen the commit windows) and at jittered times",
 		"wall_s": time.Since(start).Seconds(),
 	})
 }
